@@ -473,4 +473,124 @@ def noTrapStmt : SStmt → Bool
   | .bin _ op _ _ => op ≠ .div ∧ op ≠ .mod
   | .print _ => false
 
+/-! ## Local value numbering (`local_value_numbering.rs:6-177`)
+
+Blocks of `Binary` / call (`print`) / `Break` statements, and `SingleIf` whose body is such a block
+(the shape of a loop body after the tail-recursion rewrite: `t1 = e; c = t1 > n; if c { t2 = e; break t2 }`).
+`variable_cx` (renaming of deleted names) and `binded_value_cx` (available values) are association
+lists; entering a nested block copies them, leaving it discards the copy (`push_scope`/`pop_scope`). -/
+
+inductive Simple where
+  | bin (x : Nat) (op : Op) (a b : Operand)
+  | print (a : Operand)
+  | brk (a : Operand)
+  deriving Repr, DecidableEq
+
+inductive LStmt where
+  | s (st : Simple)
+  | sif (c : Operand) (inv : Bool) (body : List Simple)
+  deriving Repr, DecidableEq
+
+inductive Res where
+  | trap
+  | brk (v : Int)
+  | next (ρ : Nat → Int)
+
+def execSimple : List Simple → (Nat → Int) → List Int × Res
+  | [], ρ => ([], .next ρ)
+  | .bin x op a b :: r, ρ =>
+    match evalTarget op (a.eval ρ) (b.eval ρ) with
+    | none => ([], .trap)
+    | some v => execSimple r (update ρ x v)
+  | .print a :: r, ρ => let res := execSimple r ρ; (a.eval ρ :: res.1, res.2)
+  | .brk a :: _, ρ => ([], .brk (a.eval ρ))
+
+def execL : List LStmt → (Nat → Int) → List Int × Res
+  | [], ρ => ([], .next ρ)
+  | .s st :: r, ρ =>
+    match execSimple [st] ρ with
+    | (t, .next ρ') => let res := execL r ρ'; (t ++ res.1, res.2)
+    | (t, other) => (t, other)
+  | .sif c inv body :: r, ρ =>
+    if (decide (c.eval ρ ≠ 0) != inv) then
+      match execSimple body ρ with
+      | (t, .next ρ') => let res := execL r ρ'; (t ++ res.1, res.2)
+      | (t, other) => (t, other)
+    else execL r ρ
+
+abbrev Key := Op × Operand × Operand
+
+structure Cx where
+  ren : List (Nat × Nat)
+  avail : List (Key × Nat)
+  deriving Repr
+
+def rn (ren : List (Nat × Nat)) (x : Nat) : Nat := (ren.lookup x).getD x
+
+/-- `optimize_expr` -/
+def rnO (ren : List (Nat × Nat)) : Operand → Operand
+  | .lit n => .lit n
+  | .var x => .var (rn ren x)
+
+/-- one statement of `optimize_stmt`; `none` = the statement is deleted -/
+def lvn1 (st : Simple) (cx : Cx) : Option Simple × Cx :=
+  match st with
+  | .bin x op a b =>
+    let a' := rnO cx.ren a
+    let b' := rnO cx.ren b
+    match cx.avail.lookup (op, a', b') with
+    | some n => (none, { cx with ren := (x, (cx.ren.lookup x).getD n) :: cx.ren })   -- `lvn_bind_var`
+    | none => (some (.bin x op a' b'), { cx with avail := ((op, a', b'), x) :: cx.avail })
+  | .print a => (some (.print (rnO cx.ren a)), cx)
+  | .brk a => (some (.brk (rnO cx.ren a)), cx)     -- the consuming position the Break arm rewrites
+
+def lvnSimple : List Simple → Cx → List Simple × Cx
+  | [], cx => ([], cx)
+  | st :: r, cx =>
+    let (o, cx1) := lvn1 st cx
+    let (r', cx2) := lvnSimple r cx1
+    (match o with | some st' => st' :: r' | none => r', cx2)
+
+def lvnL : List LStmt → Cx → List LStmt
+  | [], _ => []
+  | .s st :: r, cx =>
+    let (o, cx1) := lvn1 st cx
+    match o with
+    | some st' => .s st' :: lvnL r cx1
+    | none => lvnL r cx1
+  | .sif c inv body :: r, cx => .sif (rnO cx.ren c) inv (lvnSimple body cx).1 :: lvnL r cx
+
+/-- SSA discipline of a block relative to the names in scope: every defined name is new, every
+used name is in scope. -/
+def wfSimple : List Simple → List Nat → Bool
+  | [], _ => true
+  | .bin x _ a b :: r, seen =>
+    !seen.contains x && a.vars.all seen.contains && b.vars.all seen.contains && wfSimple r (x :: seen)
+  | .print a :: r, seen => a.vars.all seen.contains && wfSimple r seen
+  | .brk a :: r, seen => a.vars.all seen.contains && wfSimple r seen
+
+def defsSimple : List Simple → List Nat
+  | [] => []
+  | .bin x _ _ _ :: r => x :: defsSimple r
+  | _ :: r => defsSimple r
+
+/-! ## Common-subexpression elimination across the two branches of an if/else
+(`common_subexpression_elimination.rs:13-85`, after `fix:` 934d4e6: DIV and MOD never enter the set)
+
+The values computed by the top-level `Binary` statements of both branches are intersected; one
+statement per common value is placed in front of the `IfElse` (fresh names). -/
+
+def keysOf : List Simple → List Key
+  | [] => []
+  | .bin _ op a b :: r => if op ≠ .div ∧ op ≠ .mod then (op, a, b) :: keysOf r else keysOf r
+  | _ :: r => keysOf r
+
+def cseCommon (s1 s2 : List Simple) : List Key := (keysOf s1).filter fun k => (keysOf s2).contains k
+
+/-- the statements placed in front of the if/else (names `fresh, fresh+1, …`) -/
+def cseHoisted (ks : List Key) (fresh : Nat) : List Simple :=
+  match ks with
+  | [] => []
+  | (op, a, b) :: r => .bin fresh op a b :: cseHoisted r (fresh + 1)
+
 end SamVerif.Opt
